@@ -273,6 +273,14 @@ def deep_monitor(case, il, sl):
     return None
 
 
+def queued_close_monitor(case, il, sl):
+    import refmon, monitors
+    v = monitor(case, il, sl)
+    if v:
+        return v
+    return monitors.queued_before_close(refmon.Trace(case, il), "c01-discarded-at-close")
+
+
 def suites(tier, seed):
     return [
         Suite("timers-with-backlog", "machine", lambda: [__import__("hbgen").session(Rng(seed * 13 + i), "t%d" % i, h_choices=(400, 300), stall_bias=True, steps=(6, 10)) for i in range(12 if tier == "quick" else 120)] + __import__("hbgen").tx_with_data_queued_cases(Rng(seed + 3)),
@@ -281,6 +289,8 @@ def suites(tier, seed):
         Suite("handles-submit-whole-frames", "api", lambda: [c for c in __import__("props.c02", fromlist=["x"]).sweep(tier, seed) if c.cid.startswith("s-max") or int(c.cid[1:]) % 3 == 0],
               monitor=__import__("props.c02", fromlist=["x"]).monitor, nontrivial=lambda c, il: True, canon=__import__("apigen").canon,
               rule="assumption A2 checked: whatever a channel handle puts into its queue towards the I/O thread is a whole frame (publishes with bodies of 0 ... 300 000 bytes at frame_max 4096 ... 2^32-1 through the public API; each queue entry decoded strictly) - frames of different channels can then interleave only at frame boundaries"),
+        Suite("close-behind-queued-data", "machine", lambda: __import__("machgen").close_behind_queued_cases(Rng(seed + 17)), monitor=queued_close_monitor, nontrivial=lambda c, il: True, canon=__import__("machgen").canon_nondet, exhaustive=True,
+              rule="1-5 submissions waiting in one or two channels' queues - not yet taken by the I/O thread; channels polled, or deregistered because of the high-water mark - when the client's Connection.Close is taken off channel 0's queue: everything accepted before close() was requested is on the wire ahead of the Close, nothing is discarded silently (finding D17)"),
         Suite("deep-queue-one-wake-up", "machine", lambda: mg.deep_queue_cases(Rng(seed + 64)), monitor=deep_monitor, nontrivial=lambda c, il: True, canon=mg.canon_nondet, shrink=False, exhaustive=True,
               rule="63, 64, 65, 100, 128, 129, 201, 299 frames waiting in one channel's queue (bound 300) when its single, edge-triggered wake-up is handled: one handler run takes them all, in order; the real Poll reports nothing left afterwards"),
         Suite("first-writes-e2e", "hswrite", lambda: __import__("passlog").hswrite_cases(tier), monitor=__import__("passlog").hswrite_monitor, nontrivial=lambda c, il: True, compare=False, shards=4, shrink=False, timeout=200,
